@@ -17,15 +17,24 @@ class C08Error(Exception):
     """a picklable user exception"""
 
 
+class C08SubError(C08Error):
+    """a subclass of a user exception"""
+
+
 ERR_TYPES = {
     "ValueError": ValueError, "TypeError": TypeError, "KeyError": KeyError, "RuntimeError": RuntimeError,
     "C08Error": C08Error, "ZeroDivisionError": ZeroDivisionError,
     "AssertionError": AssertionError, "EOFError": EOFError, "BrokenPipeError": BrokenPipeError,
+    "StopIteration": StopIteration, "OSError": OSError, "FileNotFoundError": FileNotFoundError, "LookupError": LookupError,
+    "C08SubError": None,
 }
 
 
 def err_message(item):
     return "c08-err-%d" % item
+
+
+ERR_TYPES["C08SubError"] = C08SubError
 
 
 class SpecFilter:
@@ -42,7 +51,10 @@ class SpecFilter:
 
     def filter(self, item):
         self._record(item)
-        outs, err, gen = self.table[item]
+        outs, err, gen = self.table[item][:3]
+        if len(self.table[item]) > 3 and self.table[item][3]:
+            import time
+            time.sleep(self.table[item][3])
         if gen:
             return self._gen(item, outs, err)
         if err:
@@ -58,4 +70,4 @@ class SpecFilter:
 
 def table_of(items, force_gen=False, base=0):
     """case['items'] -> table for SpecFilter (item ids start at `base`)"""
-    return {base + i: (list(it["outs"]), it.get("err"), bool(it.get("gen", True) or force_gen)) for i, it in enumerate(items)}
+    return {base + i: (list(it["outs"]), it.get("err"), bool(it.get("gen", True) or force_gen), it.get("sleep", 0)) for i, it in enumerate(items)}
